@@ -76,6 +76,12 @@ def msgsetcore(url, ver=1):
                            ("RESPFILEER", "Y")])
 
 
+def _addr_len(n):
+    """successive profiles alternate between long and short text, so that a newer profile is often *shorter*
+    than the one before it (overlay and stale-tail defects need that)"""
+    return max(1, 16 - 3 * (n // 2)) if n % 2 == 0 else 2 + (n // 2)
+
+
 ALL_MSGSETS = ("SIGNON", "SIGNUP", "BANK", "CC", "INV", "PROF")
 
 
@@ -99,7 +105,8 @@ def profrs_doc(p, prof_url, trailing=True, msgsets=ALL_MSGSETS, closing=("Y", "Y
         ("CASESEN", "Y"), ("SPECIAL", "Y"), ("SPACES", "N"), ("PINCH", "N"), ("CHGPINFIRST", "N"),
         ("CLIENTUIDREQ", "Y" if p.n % 2 else "N")])])
     kids = [msgsetlist, signoninfo, ("DTPROFUP", refofx.fmt_dt(p.date, p.date_style)),
-            ("FINAME", p.marker), ("ADDR1", "1 Main St"), ("CITY", "Springfield"), ("STATE", "NY"),
+            ("FINAME", p.marker), ("ADDR1", "1 Main St"), ("ADDR2", "Suite " + "7" * _addr_len(p.n)),
+            ("CITY", "Springfield"), ("STATE", "NY"),
             ("POSTALCODE", "10001"), ("COUNTRY", "USA")]
     if trailing:
         kids += [("CSPHONE", "555-0100"), ("URL", "https://www.bank.invalid/"),
